@@ -229,6 +229,8 @@ def int2bitstore(i: int, length: int, signed: bool) -> BitStore:
 
 
 def intle2bitstore(i: int, length: int, signed: bool) -> BitStore:
+    if length % 8:
+        raise bitstring.CreationError(f"Little-endian integers must be whole-byte. Length = {length} bits.")
     x = int2bitstore(i, length, signed).tobytes()
     return BitStore.frombytes(x[::-1])
 
